@@ -444,6 +444,8 @@ def fault_plans(k, kind):
         return head + [5, -1, 1, 1, 1, 1, 10, 0x7777]
     if kind == "trunc":
         return head + [5, -1, 1, 1, 1, 2, 7]
+    if kind.startswith("cut"):                       # the transfer ends early, the CCD still announces the full SCD
+        return head + [5, -1, 1, 1, 1, 2, int(kind[3:])]
     if kind == "short":
         return head + [5, -1, 1, 1, 1, 4, 1]
     if kind == "long":
@@ -713,6 +715,15 @@ def gen_cases(ck):
     for k in range(totz + 1):
         for kind in (FAULTS if not quick else [FAULTS[(k + j) % len(FAULTS)] for j in range(3)]):
             cases.append(case(dz, ops=(OPEN, GENAPI, GENAPI), plans=fault_plans(k, kind), fam="device errors"))
+    # acknowledges cut short by the transport (12 header bytes intact, SCD incomplete) at every transaction of
+    # the retrieval of a file WITHOUT hash: nothing but the acknowledge check stands between the leftovers
+    # of earlier packets in the receive buffer and the returned document
+    dn = Dev(max_ack=64)
+    dn.entry(ver32(1, 0, 0), doc("old", 60), sha=None)
+    dn.entry(ver32(1, 0, 1), doc("new", 120), sha=None)
+    for k in range(ntx([0, 0], 120, 52) + 1):
+        for cut in ((12, 13, 16, 19, 20, 30, 63) if not quick else (12, 13, 19, 30, 63)):
+            cases.append(case(dn, plans=fault_plans(k, "cut%d" % cut), fam="device errors (acknowledge cut short)"))
     # retry count 1 and a pending acknowledge
     cases.append(case(d0, ops=(RETRY, 1, OPEN, GENAPI), plans=[6, 8, 5, -1, 2, 0, 1, 1, 0], fam="device errors"))
     # ---- 8. absurd sizes and counts (implementation + predicate; the model runs where it can) ------------
